@@ -20,7 +20,7 @@
     * non-vacuity: [exB], a 27-call history in CoreOps syntax. *)
 From CJ Require Import Base Dbl Heap Forest ForestLemmas CoreSpec CoreDefs CoreRefineBase CoreRefine CoreRefineHistory
   CoreRefineHistoryObj CoreRefineHistoryObjEx CoreRefineCreate CoreLedgerGen CoreHistoryAllSteps CoreHistoryAll
-  CoreLedgerAll CoreOpsBridge.
+  CoreLedgerAll CoreHistoryAllIter CoreOpsBridge.
 From CJ Require CoreOps.
 From CJ.gen Require Import Constants.
 From Coq Require Import Floats.SpecFloat.
@@ -76,9 +76,20 @@ Definition cstrS (S : astate2) (q : ptr) : option (option bytes) :=
   | Some b => match a_str S !! b with Some s => if has0 s then Some (Some (cstr s)) else None | None => None end
   end.
 
+(** what the caller's loop over [a] reports: the type words of the children, in order *)
+Definition each_types (S : astate2) (a : ptr) : list Z :=
+  match a with
+  | Some p => match find_tree p (a_forest S) with
+              | Some n => (fun c => rd_type (tdata c)) <$> tchildren n
+              | None => []
+              end
+  | None => []
+  end.
+
 Definition encS (k : kind) (S' : astate2) (r : res3) : CO.result :=
   match k with
   | KStr => CO.RStr (match cstrS S' (res_ptr3 r) with Some s => s | None => None end)
+  | KEach a => CO.RInts (each_types S' a)
   | _ => enc k r
   end.
 
@@ -86,6 +97,11 @@ Definition post_okb (k : kind) (S' : astate2) (r : res3) : bool :=
   match k with
   | KPush => match res_ptr3 r with Some x => bool_decide (x ∈ owned (a_forest S')) | None => true end
   | KStr => match cstrS S' (res_ptr3 r) with Some _ => true | None => false end
+  | KEach a =>
+      match a with
+      | Some p => match find_tree p (a_forest S') with Some n => negb (is_ref (tdata n)) | None => false end
+      | None => true
+      end
   | _ => true
   end.
 
@@ -228,3 +244,231 @@ Proof.
   - (* a declared string *)
     injection E as <-. cbn [t_st t_pre]. destruct HV as (-> & _). by apply pools_after_decl.
 Qed.
+
+(** * one step of the extracted interpreter *)
+Lemma run_tr_split t h rs h' h1 :
+  run_ops3 (tr_ops t) h = Ret (rs, h') -> run_pre (t_pre t) h = Ret (tt, h1) ->
+  run_main (t_main t) h1 = Ret (main_res t rs, h').
+Proof.
+  intros Hr Hp.
+  assert (H : (run_pre (t_pre t) ;;; r <~ run_main (t_main t) ;; ret r) h =
+              (rs <~ run_ops3 (tr_ops t) ;; ret (main_res t rs)) h) by apply run_tr_ops_gen.
+  rewrite (bindM_Ret _ _ _ _ _ Hp), (bindM_Ret _ _ _ _ _ Hr) in H.
+  unfold bindM, ret in H. destruct (run_main (t_main t) h1) as [[r h2]|e]; [|done]. by injection H as -> ->.
+Qed.
+
+Lemma Cons_run_main m : Cons (run_main m).
+Proof. destruct m; [apply Cons_run_op3|apply Cons_ret]. Qed.
+
+Lemma Abs3_WF' h S : Abs3 h S -> WF h (a_forest S).
+Proof. by intros [((W & _) & _) _]. Qed.
+
+Lemma live_item_agree h S x :
+  Abs3 h S -> h_own h !! x = Some Lib -> CO.live_ptr h (Some x) = live_itemS S (Some x).
+Proof.
+  intros HA Ho. unfold CO.live_ptr, live_itemS. destruct (decide (x ∈ h_live h)) as [Hl|Hl].
+  - rewrite bool_decide_eq_true_2; [done|]. apply (Abs3_ledger _ _ HA). unfold lib_live. by apply elem_of_filter.
+  - rewrite bool_decide_eq_false_2; [done|]. intros Hx. apply Hl. apply (Abs3_ledger _ _ HA) in Hx.
+    unfold lib_live in Hx. by apply elem_of_filter in Hx as [_ ?].
+Qed.
+
+Lemma sweep_agree h S st :
+  Abs3 h S -> (forall y, Some y ∈ CO.st_items st -> h_own h !! y = Some Lib) ->
+  (forall y, Some y ∈ CO.st_strs st -> FL h y) -> sweep_st h st = sweepS S st.
+Proof.
+  intros HA HI HS. unfold sweep_st, sweepS. f_equal.
+  - apply map_ext_in. intros [y|] Hy; [|done]. apply live_item_agree; [done|]. apply HI. by apply elem_of_list_In.
+  - rewrite <- (map_id (CO.st_strs st)) at 2. apply map_ext_in. intros [y|] Hy; [|done].
+    unfold CO.live_ptr. rewrite decide_True; [done|]. apply HS. by apply elem_of_list_In.
+Qed.
+
+Lemma sweepS_items S st y : Some y ∈ CO.st_items (sweepS S st) -> y ∈ owned (a_forest S).
+Proof.
+  cbn. intros H. apply elem_of_list_In, in_map_iff in H as ([z|] & Hz & _); [|done].
+  unfold live_itemS in Hz. destruct (bool_decide (z ∈ owned (a_forest S))) eqn:Eb; [|done].
+  injection Hz as ->. by apply bool_decide_eq_true in Eb.
+Qed.
+
+Lemma opt_cstr_abs h S q s : Abs3 h S -> cstrS S q = Some s -> CO.opt_cstr q h = Ret (s, h).
+Proof.
+  intros [(_ & Hstr & [SI1 _] & _) _] H. destruct q as [b|]; cbn [cstrS] in H; [|by injection H as <-].
+  destruct (a_str S !! b) as [s0|] eqn:Eb; [|done]. destruct (has0 s0) eqn:Ez; [|done]. injection H as <-.
+  unfold CO.opt_cstr. cbn [is_null]. destruct (SI1 _ _ Eb) as [Hl _].
+  assert (Hs : h_str h !! b = Some s0) by (by rewrite Hstr).
+  by rewrite (bindM_Ret _ _ _ _ _ (run_ld_cstr_plain _ _ _ Hl Hs Ez)).
+Qed.
+
+Lemma each_abs h S a :
+  Abs3 h S -> post_okb (KEach a) S (R RUnit) = true -> CO.array_for_each a h = Ret (each_types S a, h).
+Proof.
+  intros HA H. destruct a as [p|]; cbn [post_okb each_types] in *.
+  - destruct (find_tree p (a_forest S)) as [[p' d cs]|] eqn:Ep; [|done].
+    pose proof (find_tree_Some _ _ _ Ep) as [_ Hx]. cbn in Hx. subst p'.
+    apply negb_true_iff in H. by apply (array_for_each_sim _ _ _ _ _ (Abs3_WF' _ _ HA) Ep H).
+  - unfold CO.array_for_each, heap_fuel, bindM. cbn [is_null negb ret].
+    destruct (Pos.to_nat (h_next h)) eqn:E; [|done]. pose proof (Pos2Nat.is_pos (h_next h)). lia.
+Qed.
+
+(** ONE STEP.  From a heap that represents [S], with sane pools: the extracted interpreter returns
+    (no error outcome) exactly what [stepS] computes from the list model, in the heap [h'] that the
+    proof-level interpreter reaches on the translated operations; [h'] represents the model's next state. *)
+Theorem stepS_sim h st S o x st1 S1 :
+  Abs3 h S -> PoolsOK h st S -> stepS st S o = Some (x, st1, S1) ->
+  exists h', CO.run_op nv st o h = Ret ((x, st1), h') /\
+             run_ops3 (step_ops st S o) h = Ret (spec_results3 S (step_ops st S o), h') /\
+             S1 = spec_run3 S (step_ops st S o) /\ Abs3 h' S1 /\ PoolsOK h' st1 S1.
+Proof.
+  intros HA [PI PS] E. unfold stepS in E. unfold step_ops.
+  destruct (tr (sview S) st o) as [t|] eqn:Et; [|done]. cbn zeta in E.
+  destruct (pre_ok_all3b S (tr_ops t) && post_okb (t_kind t) (spec_run3 S (tr_ops t))
+              (main_res t (spec_results3 S (tr_ops t)))) eqn:Eb; [|done].
+  injection E as <- <- <-. apply andb_true_iff in Eb as [Hpre Hpost].
+  pose proof (view_ok_sview _ _ HA) as HV.
+  destruct (history_sim3 (tr_ops t) h S HA (pre_ok_all3b_sound _ _ Hpre)) as (h' & Hrun & HA').
+  exists h'.
+  pose proof (proj2 HA) as K.
+  pose proof (Cons_run_ops3 (tr_ops t) _ _ _ Hrun K) as CP.
+  destruct (tr_pools _ _ _ _ _ HV K Et) as (Hitems & h1 & Hp1 & CP1 & Hstrs).
+  pose proof (run_tr_split _ _ _ _ _ Hrun Hp1) as Hmain.
+  assert (CP2 : Cons_post h1 h') by (eapply Cons_run_main; [exact Hmain|apply CP1]).
+  assert (HS' : forall y, Some y ∈ CO.st_strs (t_st t) -> FL h' y).
+  { intros y Hy. destruct (Hstrs y Hy) as [Hy0|Hy1].
+    - eapply FL_mono; [exact K|exact CP|by apply PS].
+    - eapply FL_mono; [apply CP1|exact CP2|done]. }
+  assert (HI' : forall y, Some y ∈ CO.st_items (t_st t) -> h_own h' !! y = Some Lib).
+  { intros y Hy. rewrite Hitems in Hy. pose proof (PI y Hy) as Ho. pose proof (Abs3_WF' _ _ HA) as W.
+    rewrite (cp_own _ _ CP); [by apply (wf_owned_lib _ _ W)|by apply (wf_fresh _ _ W)]. }
+  set (S' := spec_run3 S (tr_ops t)) in *. set (r := main_res t (spec_results3 S (tr_ops t))) in *.
+  assert (Hsw : sweep_st h' (new_pools (t_kind t) (t_st t) r) = sweepS S' (new_pools (t_kind t) (t_st t) r)).
+  { apply sweep_agree; [done| |].
+    - intros y Hy. destruct (t_kind t) eqn:Ek; cbn [new_pools] in Hy; try (by apply HI').
+      cbn in Hy. apply elem_of_app in Hy as [Hy|Hy]; [by apply HI'|].
+      apply elem_of_list_singleton in Hy. cbn [post_okb] in Hpost. rewrite <- Hy in Hpost.
+      apply bool_decide_eq_true in Hpost. by apply (wf_owned_lib _ _ (Abs3_WF' _ _ HA')).
+    - intros y Hy. apply HS'. by destruct (t_kind t). }
+  split; [|split; [done|split; [done|split; [done|]]]].
+  - destruct (t_kind t) as [| | | | | |a] eqn:Hk.
+    6:{ (* a returned string is read *)
+      cbn [post_okb encS new_pools] in *. destruct (cstrS S' (res_ptr3 r)) as [s|] eqn:Es; [|done].
+      rewrite (run_op_commutes_Ret_str _ _ _ _ _ _ _ s HV Et Hk Hrun (opt_cstr_abs _ _ _ _ HA' Es)).
+      by rewrite <- Hsw. }
+    6:{ (* the caller's loop *)
+      cbn [encS new_pools] in *.
+      rewrite (run_op_commutes_Ret_each _ _ _ _ _ _ _ a _ HV Et Hk Hrun (each_abs _ _ _ HA' Hpost)).
+      by rewrite <- Hsw. }
+    all: assert (Hpk : pure_kind (t_kind t)) by (by rewrite Hk).
+    all: rewrite (run_op_commutes_Ret _ _ _ _ _ _ _ HV Et Hpk Hrun); fold r; rewrite Hk; by rewrite Hsw.
+  - split; [apply sweepS_items|]. intros y Hy. apply HS'. cbn in Hy. by destruct (t_kind t).
+Qed.
+
+(** * histories *)
+Lemma run_ops3_app l1 l2 h rs1 h1 rs2 h2 :
+  run_ops3 l1 h = Ret (rs1, h1) -> run_ops3 l2 h1 = Ret (rs2, h2) -> run_ops3 (l1 ++ l2) h = Ret (rs1 ++ rs2, h2).
+Proof.
+  revert h rs1. induction l1 as [|o l1 IH]; intros h rs1 E1 E2; cbn [app run_ops3] in *.
+  - by injection E1 as <- <-.
+  - unfold bindM in *. destruct (run_op3 o h) as [[x hx]|e]; [|done].
+    destruct (run_ops3 l1 hx) as [[xs hy]|e] eqn:Ex; [|done]. injection E1 as <- <-.
+    by rewrite (IH _ _ Ex E2).
+Qed.
+Lemma spec_results3_app l1 : forall S l2, spec_results3 S (l1 ++ l2) = spec_results3 S l1 ++ spec_results3 (spec_run3 S l1) l2.
+Proof. induction l1 as [|o l1 IH]; intros S l2; [done|]. cbn [app spec_results3]. by rewrite IH. Qed.
+
+(** EVERY ACCEPTED HISTORY, from any represented state with sane pools *)
+Theorem runS_sim ops : forall h st S xs st2 S2,
+  Abs3 h S -> PoolsOK h st S -> runS st S ops = Some (xs, st2, S2) ->
+  exists h', CO.run_ops nv st ops h = Ret ((xs, st2), h') /\
+             run_ops3 (tr_hist st S ops) h = Ret (spec_results3 S (tr_hist st S ops), h') /\
+             S2 = spec_run3 S (tr_hist st S ops) /\ Abs3 h' S2 /\ PoolsOK h' st2 S2.
+Proof.
+  induction ops as [|o r IH]; intros h st S xs st2 S2 HA HP E; cbn [runS tr_hist] in *.
+  - injection E as <- <- <-. exists h. by split_and!.
+  - destruct (stepS st S o) as [[[x st1] S1]|] eqn:Es; [|done].
+    destruct (runS st1 S1 r) as [[[xr st3] S3]|] eqn:Er; [|done]. injection E as <- <- <-.
+    destruct (stepS_sim _ _ _ _ _ _ _ HA HP Es) as (h1 & E1 & R1 & -> & HA1 & HP1).
+    destruct (IH _ _ _ _ _ _ HA1 HP1 Er) as (h2 & E2 & R2 & -> & HA2 & HP2).
+    exists h2. split_and!.
+    + cbn [CO.run_ops]. rewrite (bindM_Ret _ _ _ _ _ E1). cbn [fst snd]. by rewrite (bindM_Ret _ _ _ _ _ E2).
+    + rewrite spec_results3_app. by apply (run_ops3_app _ _ _ _ _ _ _ R1 R2).
+    + by rewrite spec_run3_app.
+    + done.
+    + done.
+Qed.
+
+Lemma PoolsOK_empty : PoolsOK empty_heap CO.empty_state S0.
+Proof. split; intros x Hx; cbn in Hx; by apply elem_of_nil in Hx. Qed.
+
+(** the statement of [C06_history] for the interpreter that is extracted and executed *)
+Theorem history_extracted ops xs st' S' :
+  runS CO.empty_state S0 ops = Some (xs, st', S') ->
+  exists h', CO.run_ops nv CO.empty_state ops empty_heap = Ret ((xs, st'), h') /\
+             run_ops3 (tr_hist CO.empty_state S0 ops) empty_heap =
+               Ret (spec_results3 S0 (tr_hist CO.empty_state S0 ops), h') /\
+             S' = spec_run3 S0 (tr_hist CO.empty_state S0 ops) /\ Abs3 h' S'.
+Proof.
+  intros E. destruct (runS_sim ops _ _ _ _ _ _ Abs3_empty PoolsOK_empty E) as (h' & H1 & H2 & H3 & H4 & _).
+  by exists h'.
+Qed.
+
+Corollary history_extracted_accepted ops :
+  accepted ops = true ->
+  exists xs st' S' h', runS CO.empty_state S0 ops = Some (xs, st', S') /\
+    CO.run_ops nv CO.empty_state ops empty_heap = Ret ((xs, st'), h') /\ Abs3 h' S'.
+Proof.
+  unfold accepted. destruct (runS CO.empty_state S0 ops) as [[[xs st'] S']|] eqn:E; [|done]. intros _.
+  destruct (history_extracted _ _ _ _ E) as (h' & H1 & _ & _ & H4). by exists xs, st', S', h'.
+Qed.
+
+(** every moment: acceptance is prefix-closed *)
+Lemma runS_app ops1 : forall st S ops2 xs st2 S2,
+  runS st S (ops1 ++ ops2) = Some (xs, st2, S2) ->
+  exists xs1 st1 S1 xs2, runS st S ops1 = Some (xs1, st1, S1) /\ runS st1 S1 ops2 = Some (xs2, st2, S2) /\ xs = xs1 ++ xs2.
+Proof.
+  induction ops1 as [|o r IH]; intros st S ops2 xs st2 S2 E; cbn [app runS] in *.
+  - by exists [], st, S, xs.
+  - destruct (stepS st S o) as [[[x sta] Sa]|]; [|done].
+    destruct (runS sta Sa (r ++ ops2)) as [[[xr st3] S3]|] eqn:Er; [|done]. injection E as <- <- <-.
+    destruct (IH _ _ _ _ _ _ Er) as (xs1 & st1 & S1 & xs2 & -> & E2 & ->). by exists (x :: xs1), st1, S1, xs2.
+Qed.
+
+(** * the ledger (C07) for the extracted interpreter *)
+Theorem ledger_extracted ops xs st' S' :
+  runS CO.empty_state S0 ops = Some (xs, st', S') ->
+  exists h1 h2,
+    CO.run_ops nv CO.empty_state ops empty_heap = Ret ((xs, st'), h1) /\ Abs3 h1 S' /\
+    (forall b, b ∈ lib_live h1 <-> b ∈ owned (a_forest S')) /\
+    CO.live_count h1 = length (owned (a_forest S')) /\
+    delete_roots (roots (a_forest S')) h1 = Ret (tt, h2) /\ lib_live h2 = ∅ /\ CO.live_count h2 = 0%nat /\
+    (forall b, h_own h1 !! b = Some Foreign -> b ∈ h_live h1 -> b ∈ h_live h2 /\ h_str h2 !! b = h_str h1 !! b).
+Proof.
+  intros E. destruct (history_extracted _ _ _ _ E) as (h1 & H1 & _ & _ & HA).
+  destruct (delete_roots_sim (a_forest S') S' h1 eq_refl HA) as (h2 & S2 & E2 & HA2 & _ & HL2).
+  exists h1, h2. split_and!; try done.
+  - by apply Abs3_ledger.
+  - unfold CO.live_count. pose proof (wf_owned_nodup _ _ (Abs3_WF' _ _ HA)) as ND.
+    rewrite <- (size_list_to_set (C := gset positive) _ ND). f_equal. apply set_eq. intros b.
+    rewrite elem_of_list_to_set. by apply Abs3_ledger.
+  - unfold CO.live_count. rewrite HL2. apply size_empty.
+  - intros b Ho Hl. apply (cp_foreign _ _ (Cons_delete_roots _ _ _ _ E2 (proj2 HA)) b Ho Hl).
+Qed.
+
+(** * what acceptance means, spelled out *)
+Lemma stepS_spec st S o x st1 S1 :
+  stepS st S o = Some (x, st1, S1) <->
+  exists t, tr (sview S) st o = Some t /\
+    pre_ok_all3b S (tr_ops t) = true /\                                  (* the rule checker, on the translation *)
+    S1 = spec_run3 S (tr_ops t) /\                                       (* the list model's next state *)
+    post_okb (t_kind t) S1 (main_res t (spec_results3 S (tr_ops t))) = true /\
+    x = encS (t_kind t) S1 (main_res t (spec_results3 S (tr_ops t))) /\  (* the list model's result *)
+    st1 = sweepS S1 (new_pools (t_kind t) (t_st t) (main_res t (spec_results3 S (tr_ops t)))).
+Proof.
+  unfold stepS. split.
+  - destruct (tr (sview S) st o) as [t|]; [|done]. cbn zeta.
+    destruct (pre_ok_all3b S (tr_ops t) && _) eqn:Eb; [|done]. intros [= <- <- <-].
+    apply andb_true_iff in Eb as [H1 H2]. by exists t.
+  - intros (t & -> & H1 & -> & H2 & -> & ->). cbn zeta. by rewrite H1, H2.
+Qed.
+
+(** the oracle of the extracted driver for "no allocation failure" is [nv] *)
+Lemma fail_kth_0_never : CO.fail_kth 0 = nv.
+Proof. reflexivity. Qed.
